@@ -4,11 +4,13 @@ package disc
 
 import (
 	"bytes"
+	"context"
 	"crypto/x509"
 	"encoding/hex"
 	"encoding/json"
 	"fmt"
 	epb "github.com/google/gce-tcb-verifier/proto/endorsement"
+	"io"
 	"os"
 	"path/filepath"
 	"regexp"
@@ -22,6 +24,8 @@ import (
 	exel "github.com/google/gce-tcb-verifier/extract/eventlog"
 	"github.com/google/gce-tcb-verifier/extract/extractsev"
 	"github.com/google/gce-tcb-verifier/extract/extracttdx"
+	gtb "github.com/google/gce-tcb-verifier/gcetcbendorsement"
+	gcmd "github.com/google/gce-tcb-verifier/gcetcbendorsement/cmd"
 	oabi "github.com/google/gce-tcb-verifier/ovmf/abi"
 	evpb "github.com/google/gce-tcb-verifier/proto/events"
 	"github.com/google/gce-tcb-verifier/sev"
@@ -43,8 +47,9 @@ const googleVarGUID = "a2858e46-a37f-456a-8c79-0c1fe48b65ff"
 var (
 	rawBlob = []byte("endorsement bytes carried by the raw locator")
 	// larger than any fixed-size read buffer: the variable's data is returned whole, byte for byte
-	varBlob   = bytes.Repeat([]byte("endorsement bytes stored in the UEFI variable; "), 2800)
-	quoteBlob = []byte("endorsement bytes in the quote's certificate table")
+	varBlob = bytes.Repeat([]byte("endorsement bytes stored in the UEFI variable; "), 2800)
+	// (ends in a line feed, like one endorsement signature in 128 does: evidence is bytes, not text)
+	quoteBlob = []byte("endorsement bytes in the quote's certificate table\n")
 	provBlob  = []byte("endorsement bytes in the provider's certificate table")
 	netBlob   = []byte("endorsement bytes fetched from the network")
 	logURI    = verify.GCETcbURL("ovmf_x64_csm/" + hex.EncodeToString(rp.Meas("image-digest")) + ".fd.signed")
@@ -137,6 +142,17 @@ func buildQuote(class string) ([]byte, error) {
 		return snpAtt(quoteMeas, quoteBlob), nil
 	case "snp_noextra":
 		return snpAtt(quoteMeas, nil), nil
+	case "snp_bare_extra", "snp_bare_extra_product", "snp_bare_noextra":
+		// the go-sev-guest Attestation message itself (not wrapped in a go-tpm-tools Attestation), as
+		// the extract command's help lists it; with and without the optional product field
+		a := &spb.Attestation{Report: rp.Report(quoteMeas), CertificateChain: &spb.CertificateChain{VcekCert: []byte("vcek"), Extras: map[string][]byte{sev.GCEFwCertGUID: quoteBlob}}}
+		if class == "snp_bare_noextra" {
+			a.CertificateChain.Extras = nil
+		}
+		if class == "snp_bare_extra_product" {
+			a.Product = &spb.SevProduct{Name: spb.SevProduct_SEV_PRODUCT_MILAN}
+		}
+		return proto.Marshal(a)
 	case "report_only":
 		a := &spb.Attestation{Report: rp.Report(quoteMeas)}
 		return proto.Marshal(&tpmpb.Attestation{TeeAttestation: &tpmpb.Attestation_SevSnpAttestation{SevSnpAttestation: a}})
@@ -259,7 +275,7 @@ func localOf(r srcRow) []byte {
 		return rawBlob
 	case strings.HasPrefix(r.Evlog, "var_ok"):
 		return varBlob
-	case r.Quote == "snp_extra" || r.Quote == "certtable_extra":
+	case r.Quote == "snp_extra" || r.Quote == "snp_bare_extra" || r.Quote == "certtable_extra":
 		return quoteBlob
 	}
 	return nil
@@ -323,6 +339,83 @@ func urlKind(u string) string {
 		return "bucket_root"
 	}
 	return "obj_short"
+}
+
+type levelProvider struct{ p *provider }
+
+func (l *levelProvider) IsSupported() bool { return true }
+func (l *levelProvider) GetRawQuoteAtLevel(rd [64]byte, _ uint) ([]uint8, error) {
+	return l.p.GetRawQuote(rd)
+}
+
+type cliIO struct {
+	files map[string][]byte
+	out   map[string]*cliW
+}
+type cliW struct{ b []byte }
+
+func (w *cliW) Write(p []byte) (int, error) { w.b = append(w.b, p...); return len(p), nil }
+func (*cliW) IsTerminal() bool              { return false }
+func (m *cliIO) Create(path string) (gtb.TerminalWriter, func(), error) {
+	w := &cliW{}
+	m.out[path] = w
+	return w, func() {}, nil
+}
+func (m *cliIO) ReadFile(path string) ([]byte, error) {
+	b, ok := m.files[path]
+	if !ok {
+		return nil, fmt.Errorf("open %s: no such file", path)
+	}
+	return b, nil
+}
+
+// checkExtractCommand: the `extract` command given an attestation file that carries the endorsement:
+// the file's bytes are the attestation (no text clean-up), its certificate-table entry is written out
+// byte for byte, and neither the local quote provider nor the network is consulted.
+func checkExtractCommand(run *vk.Run) {
+	for _, class := range []string{"snp_extra", "certtable_extra", "snp_bare_extra_product", "snp_bare_extra"} {
+		q, err := buildQuote(class)
+		if err != nil {
+			run.Infra(err)
+			return
+		}
+		for _, withProvider := range []bool{false, true} {
+			prov := &provider{quote: snpAtt(provMeas, provBlob)}
+			rg := &recGetter{}
+			io_ := &cliIO{files: map[string][]byte{"att.bin": q}, out: map[string]*cliW{}}
+			b := &gcmd.Backend{Getter: rg, IO: io_, MakeEfiVariableReader: func(string) exel.VariableReader { return exel.MakeEfiVarFSReader("/nonexistent-efivarfs") }}
+			if !withProvider {
+				prov.fail = true // no TEE device on this machine
+			}
+			b.Provider = &levelProvider{prov}
+			root := gcmd.MakeRoot(gcmd.ContextWithBackend(context.Background(), b))
+			root.SetArgs([]string{"extract", "att.bin", "--out", "out.bin", "--eventlog", "/nonexistent-event-log"})
+			root.SetOut(io.Discard)
+			root.SetErr(io.Discard)
+			root.SilenceErrors, root.SilenceUsage = true, true
+			var xerr error
+			func() {
+				defer func() {
+					if p := recover(); p != nil {
+						xerr = fmt.Errorf("PANIC: %v", p)
+					}
+				}()
+				xerr = root.Execute()
+			}()
+			var out []byte
+			if w := io_.out["out.bin"]; w != nil {
+				out = w.b
+			}
+			rep := map[string]any{"attestation_class": class, "local_provider": withProvider, "error": fmt.Sprint(xerr), "urls": rg.urls, "provider_calls": prov.calls}
+			run.Case(fmt.Sprintf("extract-command:%s:%v", class, withProvider), true)
+			if xerr != nil || !bytes.Equal(out, quoteBlob) {
+				run.Violation("local-evidence-not-returned:command:"+class, fmt.Sprintf("`extract att.bin` with an attestation file (%s) whose certificate table carries the endorsement wrote %s instead of that entry byte for byte (error: %v)", class, blobName(out), xerr), rep)
+			}
+			if len(rg.urls) > 0 || prov.calls > 0 {
+				run.Violation("network-despite-local:command:"+class, fmt.Sprintf("`extract att.bin` with local evidence in the file (%s) consulted the quote provider (%d calls) / the network (%v)", class, prov.calls, rg.urls), rep)
+			}
+		}
+	}
 }
 
 // RunC16 is the C16 check.
@@ -407,7 +500,7 @@ func RunC16(run *vk.Run) {
 				run.Violation("fetch-without-measurement:"+k, fmt.Sprintf("a fetch was issued for %q, which is not derived from a full-length measurement: %+v", u, r), rep)
 			}
 		}
-		if r.Quote == "snp_extra" || r.Quote == "snp_noextra" || r.Quote == "report_only" || r.Quote == "tdx" {
+		if r.Quote == "snp_extra" || r.Quote == "snp_noextra" || r.Quote == "snp_bare_extra" || r.Quote == "snp_bare_noextra" || r.Quote == "report_only" || r.Quote == "tdx" {
 			// the supplied attestation carries a full-length measurement: it decides the object and the evidence
 			for _, u := range urls {
 				if k := urlKind(u); k == "obj_full_provider" || k == "obj_full_other" {
@@ -442,7 +535,8 @@ func RunC16(run *vk.Run) {
 	checkNames(run)
 	checkEvents(run)
 	run.Exhaustive = true
-	run.Rule = "every row of Discovery.tla: 11 event-log shapes x 8 quote formats x 4 providers x 3 getters x forced/unforced (real event-log files, efivarfs directory, quotes, recording provider/getter), and every variable name of up to 4 path components over {plain, .., /, link-out, link-in, missing} resolved by the real EfiVarFSReader on a directory tree with real symbolic links and sentinel files outside the root; plus injectivity / round trip of object names and the round trip of the events the signer emits"
+	checkExtractCommand(run)
+	run.Rule = "every row of Discovery.tla: 13 event-log shapes x 12 quote formats x 4 providers x 3 getters x forced/unforced (real event-log files, efivarfs directory, quotes, recording provider/getter), and every variable name of up to 4 path components over {plain, .., /, link-out, link-in, missing} resolved by the real EfiVarFSReader on a directory tree with real symbolic links and sentinel files outside the root; plus injectivity / round trip of object names and the round trip of the events the signer emits"
 }
 
 // ---- object names ----
